@@ -491,16 +491,22 @@ class HasObservables:
         observable = signal.name
         signal_type = signal.type
 
+        # a handler may subscribe or unsubscribe (itself or others) while it is being
+        # notified: walk the list as it is now, but skip what has been unsubscribed
+        # meanwhile (unobserve and clear_all_subscriptions replace the list)
+        observers = self.subscribers[observable][signal_type]
+        for observer in tuple(observers):
+            if active_observer := observer():
+                current = self.subscribers[observable][signal_type]
+                if current is observers or observer in current:
+                    active_observer(signal)
         # because we are using a list of subscribers
         # we should update this list to subscribers that are still alive
-        observers = self.subscribers[observable][signal_type]
-        active_observers = []
-        for observer in observers:
-            if active_observer := observer():
-                active_observer(signal)
-                active_observers.append(observer)
-        # use iteration to also remove inactive observers
-        self.subscribers[observable][signal_type] = active_observers
+        self.subscribers[observable][signal_type] = [
+            observer
+            for observer in self.subscribers[observable][signal_type]
+            if observer()
+        ]
 
 
 def descriptor_generator(obj) -> [str, BaseObservable]:
